@@ -87,6 +87,7 @@ def run(prog, rep, tier='quick'):
     rep.rule('nesting', 'stores inside the recursion carry no dependence on `order`')
     rep.rule('recurrence', 'rho0 = sum|x|^2/N (signature 1/N, degree 2); rho <- (1-|kp|^2)*rho; kp stored in a[k] and ref[k]')
     rep.rule('guard', 'after the update of rho: rho <= 0 -> raise before the next iteration')
+    rep.rule('stage-update', 'no store to a recursion array (a, ef, eb, ref) inside the order loop is control-dependent on a test that reads a data-derived value')
     rep.rule('order-update', 'no store a[i2] = f(.., a[i1], ..) follows a store to a[i1] in the same iteration (two-ended step-up)')
     rep.rule('integer-data', 'no product / integer power of the raw samples is formed while they may still have an integer dtype')
     rep.rule('scaling', 'a, ref: s=0; rho: s=2 under every criterion')
@@ -274,6 +275,67 @@ def run(prog, rep, tier='quick'):
     else:
         rep.proved('integer-data', f.qname, 'arithmetic on the raw samples', 'no product or integer power of integer-typed samples '
                    '(conversions to float/complex come first)', where)
+    # the stage update (coefficients, forward / backward errors) is unconditional in the data: a store to a recursion array inside
+    # the order loop is never control-dependent on a data-valued test (only raise / break may be)
+    n_su = 0
+    params = [a_.arg for a_ in f.node.args.args]
+    datanames = set(params[:1])
+
+    def reads(e_):
+        out = set()
+        stack = [e_]
+        while stack:
+            n_ = stack.pop()
+            if isinstance(n_, ast.Call) and isinstance(n_.func, ast.Name) and n_.func.id == 'len':
+                continue
+            if isinstance(n_, ast.Attribute) and n_.attr in ('size', 'shape', 'ndim', 'dtype'):
+                continue
+            if isinstance(n_, ast.Name) and isinstance(n_.ctx, ast.Load):
+                out.add(n_.id)
+            stack += list(ast.iter_child_nodes(n_))
+        return out
+    changed = True
+    while changed:
+        changed = False
+        for n_ in ast.walk(f.node):
+            tg, val = None, None
+            if isinstance(n_, ast.Assign):
+                tg, val = n_.targets, n_.value
+            elif isinstance(n_, ast.AugAssign):
+                tg, val = [n_.target], n_.value
+            if tg is None or not (reads(val) & datanames):
+                continue
+            for t_ in tg:
+                for x_ in ast.walk(t_):
+                    if isinstance(x_, ast.Name) and isinstance(x_.ctx, ast.Store) and x_.id not in datanames:
+                        datanames.add(x_.id)
+                        changed = True
+                    if isinstance(x_, ast.Subscript) and isinstance(x_.value, ast.Name) and x_.value.id not in datanames:
+                        datanames.add(x_.value.id)
+                        changed = True
+    main = [n_ for n_ in f.node.body if isinstance(n_, (ast.For, ast.While))]
+    bad_su = []
+    for lp in main:
+        for n_ in ast.walk(lp):
+            if not isinstance(n_, ast.If) or not (reads(n_.test) & datanames):
+                continue
+            for blk in (n_.body, n_.orelse):
+                stores = [x_ for b_ in blk for x_ in ast.walk(b_) if isinstance(x_, ast.Subscript) and isinstance(x_.ctx, ast.Store)
+                          and isinstance(x_.value, ast.Name) and x_.value.id in datanames]
+                if stores:
+                    bad_su.append((n_, stores[0]))
+            n_su += 1
+    n_su += len(main)
+    if bad_su:
+        for g_, st_ in bad_su:
+            rep.violation('stage-update', f.qname, 'if %s' % normalise(g_.test)[:60], 'the store %s inside the order recursion is executed only '
+                          'when a data-valued test (%s) holds: for the data on the other branch the stage update (step-up of the '
+                          'coefficients / forward and backward errors of Eq. 8.7) is skipped, so later stages work on errors of the '
+                          'wrong stage' % (normalise(st_)[:40], normalise(g_.test)[:40]), loc(f.mod, g_))
+    elif main:
+        rep.proved('stage-update', f.qname, 'stores inside the order recursion', 'no store to a recursion array is control-dependent on a '
+                   'data-valued test (data-derived names: %s)' % ', '.join(sorted(datanames)), where)
+    rep.floor('order loops scanned for conditional stage updates', len(main), 1)
     # the stated domain (orders 1..N-2) is admitted: no guard on the sizes rejects a point of it
     from ..d1rules import admission
     grid = [{'N': n_, 'Po': p_} for n_ in range(4, 11) for p_ in range(1, n_ - 1)]
